@@ -575,3 +575,51 @@ func RunSelfTests() int {
 	}
 	return rc
 }
+
+// Export returns the violations recorded so far (first case per key), for a worker process.
+func (c *Ctx) Export() []WorkerViolation {
+	c.mu.Lock()
+	defer c.mu.Unlock()
+	var out []WorkerViolation
+	for _, key := range c.failOrder {
+		r := c.fails[key]
+		if len(r.cases) > 0 {
+			out = append(out, WorkerViolation{Case: r.cases[0], Failure: r.fails[0]})
+		}
+	}
+	return out
+}
+
+// Reversed reports whether this process is the reverse-order pass of a sweep.
+func Reversed() bool { return os.Getenv("VERIF_ORDER") == "reverse" }
+
+// ReverseOrderPass re-runs the check's quick domains in a fresh process with the
+// instantiations visited in the opposite order, and merges what it finds: state that the
+// library keeps between calls (a cache filled by the first caller) shows up in one of the
+// two orders.
+func (c *Ctx) ReverseOrderPass(binary string) {
+	if Reversed() {
+		return
+	}
+	res, _, err := RunWorker(binary, c.Prop.ID, "--worker", "reverse", "VERIF_ORDER=reverse", "VERIF_TIER=quick", "VERIF_NO_EVIDENCE=1")
+	if err != nil {
+		c.InternalError("reverse-order pass: %v", err)
+		return
+	}
+	for _, v := range res.Violations {
+		c.Fail(v.Case, v.Failure)
+	}
+	c.Set("reverse_order_pass_evaluations", res.Executions)
+}
+
+// SweepWorker is the Worker of the sweep checks: runs the check itself (reverse order) and
+// reports its violations.
+func SweepWorker(c *Ctx, arg string) int {
+	c.Prop.Run(c)
+	res := &WorkerResult{CanaryOK: true, Violations: c.Export(), Executions: c.evals.Load()}
+	if v, ok := c.cov["evaluations"].(int64); ok {
+		res.Executions = v
+	}
+	EmitWorkerResult(res)
+	return 0
+}
